@@ -16,8 +16,9 @@ TRUSTED = {
     'A7': 'A7 LineNumbers (RefCell memo of line numbers): PROVED in unit U23 for a fixed back-pointer table of smawk\'s shape — get terminates, never panics and returns the '
           'number of back-pointer hops (rewrite R17: RefCell<Vec> verified as a Vec behind &mut self; no two borrows overlap). In U2 the call stays abstract (any usize), because '
           'the memo is kept across the growing tables smawk passes: that a finished prefix never changes is part of A6 and checked on the real smawk crate by BEC A6.smawk.call_shape',
-    'A8': 'A8 termination of display_width\'s loop: the proved invariant shows remaining() strictly shrinks, but Verus forbids prophetic values in '
-          'decreases (exec_allows_no_decreases_clause on that one function)',
+    'A8': 'A8 (discharged) termination of the loops of display_width and strip_ansi_escape_sequences is now PROVED: Verus forbids the prophetic remaining() in a decreases '
+          'clause, so a ghost counter starts at the number of characters and the invariant remaining().len() <= counter shows every iteration consumes at least one; no '
+          'exec_allows_no_decreases_clause is left anywhere',
     'A9': 'A9 restated callee contracts: Verus runs one file per unit, so a callee proved in another unit appears in the caller\'s unit as an external_body function whose '
           'contract is restated (table and audit in DESIGN.md §2.8): the tiling and cached-width contracts of find_words (proved in U13 / U20), split_words (U14), '
           'break_words (U6) and break_apart (U15), Word::from (U6), the partition contract of the line breakers (U1, U2, U17), split_points (U16), display_width / strip / '
@@ -98,7 +99,7 @@ PROPS = {
         'units': ['U1', 'U2', 'U3', 'U4', 'U5', 'U6', 'U8', 'U9', 'U10', 'U11', 'U12', 'U13', 'U14', 'U15', 'U16', 'U17', 'U18', 'U20', 'U21', 'U22', 'U23'], 'level': 'other', 'kani': [K1, K1MIN],
         'trusted': ['A1', 'A2', 'A3', 'A4', 'A5', 'A6', 'A7', 'A8', 'A9', 'A10', 'A11', 'A12', 'R15', 'R16', 'R17'],
         'proved_part': 'Verus: absence of panics (index/slice bounds incl. char boundaries in NonEmptyLines, arithmetic overflow, unwrap on None, callee preconditions) and '
-                       'termination for wrap_first_fit, wrap_optimal_fit (Err only from the is_infinite test), skip_ansi_escape_sequence, display_width (A8), NonEmptyLines::next, '
+                       'termination for wrap_first_fit, wrap_optimal_fit (Err only from the is_infinite test), skip_ansi_escape_sequence, display_width, NonEmptyLines::next, '
                        'wrap_columns (A11), Word::from, break_words, indent, dedent, fill_inplace (incl. from_utf8().unwrap()), wrap, wrap_single_line, wrap_single_line_slow_path (incl. char-boundary safety of its slices), fill_slow_path, unfill (incl. the #466 class of slice panics), WordSplitter::split_points, WrapAlgorithm::wrap, strip_ansi_escape_sequences, find_words_ascii_space, find_words_unicode_break_properties, split_words and Word::break_apart (closures, R16), fill, refill, Options::new / from / the setters, LineEnding::as_str, LineNumbers::get (R17).',
         'bounded_part': 'BEC: every public function under catch_unwind with a hang watchdog over the adversarial alphabet, widths {0,1,2,7,usize::MAX}, all option combinations, '
                         'extreme penalties; only here: "optimal-fit never reports an overflow error for usize-valued widths and penalties" (A14: float magnitudes), the inside of the dependencies '
